@@ -11,7 +11,7 @@
    _find_next (build/proposed_fixes/C16_find_next_offset.diff); [false] = the test "i < size". *)
 From Coq Require Import ZArith List.
 Import ListNotations.
-Require Import SC3.model.Alloc SC3.model.NodeId.
+Require Import SC3.model.Alloc SC3.model.NodeId SC3.lib.PyNum SC3.gen.Gen_builtins.
 Require Import SC3.proofs.C16_base SC3.proofs.C16_inv SC3.proofs.C16_alloc SC3.proofs.C16_free
                SC3.proofs.C16_main SC3.proofs.C16_thms SC3.proofs.C16_nodeid.
 Open Scope Z_scope.
@@ -125,6 +125,15 @@ Example nodeid_wrap_example :
   | None => []
   end = [268435454; 268435455; 201327592; 201327593].
 Proof. vm_compute. reflexivity. Qed.
+
+(* NodeId.wrap_int is what the REGENERATED builtins.wrap computes on the arguments NodeIDAllocator.alloc passes,
+   checked at the wrap boundary (a test by computation, not a general lemma) *)
+Example builtins_wrap_agrees_at_the_boundary :
+  py_wrap (I (temp_max + 1)) (I 1000) (I temp_max) = I (wrap_int (temp_max + 1) 1000 temp_max) /\
+  py_wrap (I temp_max) (I 1000) (I temp_max) = I (wrap_int temp_max 1000 temp_max) /\
+  py_wrap (I 1001) (I 1000) (I temp_max) = I (wrap_int 1001 1000 temp_max) /\
+  py_wrap (I (temp_max + 1)) (I 1) (I temp_max) = I 1.
+Proof. vm_compute. repeat split; reflexivity. Qed.
 
 Example partition_example : partition 64 4 4 1 2 = (15, 1, 34).
 Proof. vm_compute. reflexivity. Qed.
